@@ -231,7 +231,11 @@ def run(cfg, w):
 
         def apply(pt, ps):
             outs = {}
-            for name, key in [("whole", Ellipsis), ("item", {l0: dims[l0].items[-1]})]:
+            # (list keys: every item of the first dimension in reversed order; the last dimension's items but the first)
+            keys = [("whole", Ellipsis), ("item", {l0: dims[l0].items[-1]}), ("list_all_reversed", {l0: list(dims[l0].items)[::-1]})]
+            if lens[st[-1]] >= 2:
+                keys.append(("list_partial", {st[-1]: list(dims[st[-1]].items)[1:][::-1]}))
+            for name, key in keys:
                 t = _arr(w, dims, lens, st, pt, T)
                 s = _arr(w, dims, lens, ss, ps, S)
                 t[key] = s
